@@ -4,6 +4,8 @@ import (
 	"bytes"
 	"errors"
 	"fmt"
+	cmtproto "github.com/cometbft/cometbft/proto/tendermint/types"
+	cryptocodec "github.com/cosmos/cosmos-sdk/crypto/codec"
 	"strings"
 	"testing"
 	"time"
@@ -320,6 +322,7 @@ func TestC12L2(t *testing.T) {
 			p.Admin, p.BridgeExecutors = newAdmin, newExecs
 			return &p
 		}
+		hostSetKnown := false
 		var pastPlans []func() error
 		repeatSteps(rt, 30, func(i int) {
 			if len(pastPlans) > 0 && rapid.IntRange(0, 9).Draw(rt, "nodeRestart") == 0 {
@@ -456,6 +459,15 @@ func TestC12L2(t *testing.T) {
 				if r.OK() {
 					cp := ni
 					info = &cp
+					if !hostSetKnown && ni.L1ClientId != "" {
+						// the light client of L1 reports its validator set (known as of L1 height 9)
+						k := henv.MakeConsKey("c12-host-validator")
+						pk, _ := cryptocodec.ToCmtProtoPublicKey(k.PubKey())
+						if err := l2.K.UpdateHostValidatorSet(l2.Ctx, ni.L1ClientId, 9, &cmtproto.ValidatorSet{Validators: []*cmtproto.Validator{{Address: k.PubKey().Address(), PubKey: pk, VotingPower: 10}}}); err == nil {
+							hostSetKnown = true
+							c.Class("L2/l1-validator-set-known")
+						}
+					}
 				}
 				// the binding can never be re-pointed
 				if info != nil {
@@ -465,8 +477,10 @@ func TestC12L2(t *testing.T) {
 					}
 				}
 			case "updateOracle":
-				r := l2.Deliver(opchildtypes.NewMsgUpdateOracle(signer, 5, []byte{1, 2, 3}))
-				log = append(log, fmt.Sprintf("updateOracle by %s [executor=%v] -> %v", short(signer), isExec(signer), r.Err))
+				// (for L1 heights below, at and above the one the validator set is known for)
+				oh := rapid.SampledFrom([]uint64{5, 5, 3, 9, 10, 1 << 40}).Draw(rt, "oracleHeight")
+				r := l2.Deliver(opchildtypes.NewMsgUpdateOracle(signer, oh, []byte{1, 2, 3}))
+				log = append(log, fmt.Sprintf("updateOracle(height %d) by %s [executor=%v] -> %v", oh, short(signer), isExec(signer), r.Err))
 				if r.OK() {
 					fail("oracle update with garbage data succeeded")
 				}
